@@ -121,6 +121,29 @@ def main(args):
                 rec["pats"] = regex.pats_table([sc["schema"]] + list(sc["store"].values()))
                 refrecs.append((rec, {"scenario": sc["name"], **sc["schema"]} and sc["schema"], I, plain))
     outs.append(refrecs)
+    # contexts inside contexts: a union applied directly to the instance of an enclosing union (the inner errors' parent
+    # has an EMPTY relative path) below a property / an array item (an ancestor further up has a non-empty one)
+    nested = []
+    nid = 6 * 10 ** 7
+    for d in DRAFTS:
+        cls = _cls()[d]
+        leaves = [{"type": "string"}, {"minimum": 5}, {"enum": [None]}]
+        for l1 in leaves:
+            for l2 in leaves:
+                if d == 3:
+                    inner = {"type": [{"type": [l1, "null"]}, {"type": [l2, {"maxLength": 0}]}]}
+                else:
+                    inner = {"anyOf": [{"anyOf": [l1]}, {"oneOf": [l2, {"allOf": [{"anyOf": [l1, l2]}]}]}]}
+                for S in ({"properties": {"a": inner}}, {"items": inner}, {"properties": {"a": {"items": [{}, inner]}}}):
+                    for I in ({"a": 3}, [3, "s"], {"a": [1, 3]}, {"a": "long"}, [None, 4]):
+                        nid += 1
+                        try:
+                            rec, plain = errrec.make_record(nid, d, cls, S, I, loc=True)
+                        except Exception:  # noqa
+                            continue
+                        if plain:
+                            nested.append((rec, S, I, plain))
+    outs.append(nested)
     recs, real = [], {}
 
     def walk(es):
